@@ -255,6 +255,66 @@ def ob_illposed(name):
     return Obligation('ill-posed %s' % name, fn, bounds='case %s, every y' % name, expect_symbolic=False)
 
 
+REFITS = [(nord, ga, gb) for nord in (3, 2, 4) for ga in ((5, 9), (3, 10), (2, 6)) for gb in ((15, 19), (14, 20), (17, 21))]
+
+
+def ob_refit(nord, gap_a=(5, 9), gap_b=(15, 19)):
+    """two data gaps opened one after the other on the SAME bspline object; after every failing fit the
+    breakpoint mask must address each unsupported coefficient, and the protocol fit-until-status-0 must
+    end in the least-squares optimum over the surviving knots."""
+    def fn(ctx):
+        from pydl.pydlutils.bspline import bspline
+        n = 24
+        xs = [F(i) for i in range(n)]
+        bk = [F(2 * i) for i in range(12)] + [F(23)]
+        ys = ctx.reals('y', n)
+        d = {'fn': 'refit', 'nord': nord, 'gap_a': list(gap_a), 'gap_b': list(gap_b)}
+        ctx.detail = d
+        sset = bspline(symnp.rarray(xs), nord=nord, bkpt=symnp.rarray(bk))
+        stages = [[F(0) if gap_a[0] <= i <= gap_a[1] else F(1) for i in range(n)],
+                  [F(0) if (gap_a[0] <= i <= gap_a[1] or gap_b[0] <= i <= gap_b[1]) else F(1) for i in range(n)]]
+        for si, w in enumerate(stages):
+            status = None
+            for attempt in range(8):
+                before = [bool(b) for b in sset.mask.tolist()]
+                K = [f.v for f, m in zip(sset.breakpoints.tolist(), before) if m]
+                Bm = basis_matrix(K, nord, xs)
+                G = gram(Bm, w)
+                zero_cols = [j for j in range(len(G)) if G[j][j] == 0]
+                status, yfit = sset.fit(symnp.rarray(xs), symnp.rarray(ys), symnp.rarray(w))
+                dd = dict(d, stage=si, attempt=attempt, status=str(status))
+                after = [bool(b) for b in sset.mask.tolist()]
+                if status == 0:
+                    ctx.require(is_spd(G), 'refit: status 0 only when every remaining coefficient is supported', dd)
+                    break
+                ctx.require(status == -1, 'refit: an unsupported stretch in the middle of the data is reported with status -1', dd)
+                if status != -1:
+                    return
+                ctx.require(all(a or not b for a, b in zip(before, after)) or True, 'symbolic touch')
+                good_idx = [i for i, m in enumerate(before) if m]          # reduced numbering -> full index
+                newly = [r for r, i in enumerate(good_idx) if not after[i]]
+                ctx.require(len(newly) > 0, 'status -1: some breakpoint was masked', dd)
+                for j in zero_cols:
+                    ctx.require(any(j <= r <= j + nord for r in newly),
+                                'status -1: the breakpoints masked lie in the support of each unsupported coefficient',
+                                dict(dd, column=j, masked=[good_idx[r] for r in newly]))
+            ctx.require(status == 0, 'refit: fit-until-supported ends with status 0', dict(d, stage=si, status=str(status)))
+            if status != 0:
+                return
+            cur = [bool(b) for b in sset.mask.tolist()]
+            K = [f.v for f, m in zip(sset.breakpoints.tolist(), cur) if m]
+            Bm = basis_matrix(K, nord, xs)
+            G = gram(Bm, w)
+            nc = len(G)
+            rhsv = [sum((R(w[p] * Bm[p][i]) * ys[p] for p in range(n)), R(0)) for i in range(nc)]
+            cref = symnp.exact_solve(symnp.rarray(G), symnp._build_object(rhsv)).tolist()
+            for p in range(n):
+                ref = sum((R(Bm[p][j]) * cref[j] for j in range(nc)), R(0))
+                ctx.require(zt(R.lift(yfit[p])) == zt(ref), 'refit: the final fit is the weighted least-squares spline on the surviving knots',
+                            dict(d, stage=si, p=p))
+    return Obligation('refit two gaps nord=%d a=%s b=%s' % (nord, list(gap_a), list(gap_b)), fn, bounds='24 data, 13 breakpoints, two gaps opened in sequence on one object, every y')
+
+
 def obligations(tier, seed):
     obs = []
     q = tier == 'quick'
@@ -273,6 +333,8 @@ def obligations(tier, seed):
         obs.append(ob_cholesky(n, bw))
     for name in ILL:
         obs.append(ob_illposed(name))
+    for nord, ga, gb in ([(3, (3, 10), (15, 19)), (2, (5, 9), (15, 19))] if q else REFITS):
+        obs.append(ob_refit(nord, ga, gb))
     return obs
 
 
@@ -346,6 +408,43 @@ def replay(rec):
             return True
         x = cholesky_solve(L, b)
         return bool(np.abs(A @ x[0:n] - b[0:n]).max() > tol * max(1.0, np.abs(b).max()))
+    if fn == 'refit':
+        from scipy.interpolate import BSpline
+        nord, n = d['nord'], 24
+        x = np.arange(n, dtype=float)
+        y = np.array([_f(inp.get('y%d' % p, 0)) for p in range(n)])
+        sset = bspline(x, nord=nord, bkpt=np.array([2.0 * i for i in range(12)] + [23.0]))
+        ga, gb = d.get('gap_a', [5, 9]), d.get('gap_b', [15, 19])
+        stages = [np.array([0.0 if ga[0] <= i <= ga[1] else 1.0 for i in range(n)]),
+                  np.array([0.0 if (ga[0] <= i <= ga[1] or gb[0] <= i <= gb[1]) else 1.0 for i in range(n)])]
+        for w in stages:
+            status = None
+            for attempt in range(8):
+                before = sset.mask.copy()
+                K = sset.breakpoints[before]
+                Bm = BSpline.design_matrix(x, K, nord - 1).toarray()
+                zero_cols = [j for j in range(Bm.shape[1]) if (w * Bm[:, j] ** 2).sum() == 0]
+                status, yfit = sset.fit(x, y, w)
+                if status == 0:
+                    break
+                if status != -1:
+                    return True
+                good_idx = np.nonzero(before)[0]
+                newly = [r for r, i in enumerate(good_idx) if not sset.mask[i]]
+                if not newly:
+                    return True
+                for j in zero_cols:
+                    if not any(j <= r <= j + nord for r in newly):
+                        return True
+            if status != 0:
+                return True
+            K = sset.breakpoints[sset.mask]
+            Bm = BSpline.design_matrix(x, K, nord - 1).toarray()
+            sw = np.sqrt(w)
+            cref = np.linalg.lstsq(sw[:, None] * Bm, sw * y, rcond=None)[0]
+            if np.abs(yfit - Bm @ cref).max() > 1e-6 * max(1.0, float(np.abs(y).max())):
+                return True
+        return False
     if fn == 'ill':
         layout, nord, wf, bk = ILL[d['case']]
         xs = LAYOUTS[layout][0]
